@@ -7,6 +7,8 @@ from ..refs.rungs import rung_levels
 from ..refs.promotion import PromotionRef
 from .c03 import RUNG_SYSTEMS
 
+from ..scheds import shared as scheds_shared
+
 LEVEL = "model_checking"
 PROP = "C04"
 
@@ -17,7 +19,7 @@ def make_scheduler(cfg):
     rs = RUNG_SYSTEMS[cfg["rs"]]
     kw = dict(searcher="random", type=cfg["type"], metric="m", mode=cfg["mode"], resource_attr="epoch",
               brackets=cfg["brackets"], rung_system_per_bracket=cfg["per_bracket"],
-              random_seed=cfg["seed"], search_options={"debug_log": False})
+              random_seed=cfg["seed"], search_options=scheds_shared("so", {"debug_log": False}))
     space = {"a": uniform(0, 1)}
     if cfg.get("use_mra"):
         space["epochs"] = rs["max_t"]
@@ -46,8 +48,14 @@ def cost_table(T, R, variant):
     """cumulative cost to reach level r; variant rotates which trial is expensive"""
     tab = []
     for t in range(T):
-        per = COSTS[(t + variant) % len(COSTS)]
-        tab.append([per * (r + 1) * (1.0 + 0.07 * t) for r in range(R)])
+        # the cost of a level depends on trial *and* level in a non-proportional way: the cost of the job that continues
+        # from a checkpoint is then not a fixed fraction of the total cost (a rung system reading per-job cost decides differently)
+        if variant >= 10:
+            # front-loaded / back-loaded trials alternate (which ones: variant): total cost and cost of the last job rank differently
+            inc = [(5.0 if (r + t + variant) % 2 == 0 else 1.0) * (1.0 + 0.03 * t + 0.011 * r) for r in range(R)]
+        else:
+            inc = [COSTS[(t + variant + 3 * r + (r * r) % 5) % len(COSTS)] * (1.0 + 0.07 * t) for r in range(R)]
+        tab.append([sum(inc[: r + 1]) for r in range(R)])
     return tab
 
 
@@ -151,6 +159,13 @@ def configs(tier, seed):
                         cfg["id0"] = 8 if len(out) % 2 else 0
                         cfg["max_states"] = 3000 if tier == "quick" else 10000
                         out.append(cfg)
+                        if typ == "cost_promotion" and brackets == 1:
+                            # checkpointed jobs (cost of the job != total cost) with alternating front-/back-loaded cost curves
+                            for cv in (10, 11):
+                                c2 = dict(cfg, scratch=False, use_mra=(cv == 10), cost_variant=cv, T=5 if tier == "thorough" else 4)
+                                if c2["T"] != T:
+                                    c2["perms"] = {k: tuple(v) + tuple(range(T, c2["T"])) for k, v in perms.items()}
+                                out.append(c2)
     return out
 
 
